@@ -287,13 +287,16 @@ def run(ctx):
     t0 = time.time()
     paths = ctx.gen_paths("ws", "Gen_WsReceiver", "Gen_WsReceiverValid.cfg", overrides={"L": 3})
     ctx.replay(expand_recv(paths, ctx.seed, ctx.pick(1, 2)), recv_replayer, label="s2c")
+    sims = ctx.sim_paths("ws", "Gen_WsReceiver", "Gen_WsReceiverValid.cfg", num=ctx.pick(100, 2000), depth=12,
+                         overrides={"L": 12, "PieceKinds": '{"zero", "one", "half", "rest1"}', "CtlLens": "{0, 5, 125}"})
+    ctx.replay(expand_recv(sims, ctx.seed, 2), recv_replayer, label="s2c")
     ctx._phase("s2c-recv", t0)
     # 4. (a) real client <-> real server through the re-fragmenting middlebox
     t0 = time.time()
     cc = cat(_CHAN_CAT)
     os.environ["WS_CATALOG"] = cc.write(os.path.join(ctx.scratch, "catalog_chan.ndjson"))
     paths = ctx.gen_paths("ws", "Gen_WsChannel", "Gen_WsChannel.cfg", overrides=ctx.pick({"L": 3, "MaxSend": 2}, {"L": 4, "MaxSend": 2}))
-    ctx.replay(expand_chan(paths, ctx.seed, ctx.pick(1, 3)), chan_replayer, label="s2c")
+    ctx.replay(expand_chan(paths, ctx.seed, ctx.pick(1, 2)), chan_replayer, label="s2c")
     ctx._phase("s2c-chan", t0)
     ctx.cov["exhaustive"] = True
     # 5. code -> spec: random sessions on the real pair, wire frames and deliveries judged by TLC
@@ -321,4 +324,8 @@ def replay(ctx, rec):
         r = fn(d["extra"], d["path"])
         print("replay:", "diverges " + framework.jdump(r) if r else "follows the specification")
         return 1 if r else 0
-    return 0
+    t = d["trace"]
+    v = ctx.validate("ws", "Trace_WsChannel", "Trace_WsChannel.cfg", [t], sig_fn=session_sig)
+    bad = v[t["id"]]
+    print("replay:", "trace rejected at event %s" % bad["at"] if bad else "trace accepted by the specification")
+    return 1 if bad else 0
